@@ -465,6 +465,8 @@ def _plan(c, r):
     # witness
     if isinstance(r, list) and r[0] == 1:
         plan.append(("check", "c04.check", [alts, orders, r[1]]))
+    # the mirror of is_single_crossing itself (Model/SCAlgo.v; theorems sc_algo_sound / sc_algo_complete)
+    plan.append(("algo", "c04.algo", [alts, orders]))
     # mirror of the verification pass vs the sequence checker on the stored order (theorem ordered_check_correct)
     if c["tags"].get("helper"):
         plan.append(("ordered", "c04.ordered", [orders]))
@@ -496,6 +498,15 @@ def judge(c, r, mres):
     if "ordered" in m and m["ordered"] != m["seqcheck"]:
         return {"kind": "broken-correspondence",
                 "reason": "model: ordered_check and sc_seq_check disagree on the stored order (ordered_check_correct)"}
+    algo = m["algo"]
+    if algo[0] != 0:
+        return {"kind": "broken-correspondence",
+                "reason": "model: the mirror sc_algo raises IndexError on a well-formed profile (sc_algo_no_error)"}
+    algo_verdict = 1 if algo[1] else 0
+    if algo_verdict != expected:
+        return {"kind": "broken-correspondence",
+                "reason": "model: the mirror sc_algo answers %d, the proved references %d (sc_algo_sound / "
+                          "sc_algo_complete)" % (algo_verdict, expected)}
     verdict, seq, cs = r[0], r[1], r[2]
     if verdict != expected:
         return ("is_single_crossing answers %s, the reference (theorem sc_decide_correct / "
@@ -534,6 +545,15 @@ def stats(c, r, m):
     if c["tags"].get("storage") == "all":
         lab.append("every storage order, m=%d n=%d" % (mm, n))
     if isinstance(r, list):
+        mm0 = _named(c, r, m)
+        al = mm0.get("algo")
+        if isinstance(al, list) and al[0] == 0:
+            if al[1] and r[0] == 1:
+                lab.append("mirror sc_algo: returned sequence %s" % ("identical" if al[1][0] == r[1] else "DIFFERENT (both valid)"))
+            elif not al[1] and r[0] == 0:
+                lab.append("mirror sc_algo: both answer False")
+            else:
+                lab.append("mirror sc_algo: verdict differs from the implementation")
         lab.append("conflict_sets compared")
         if r[3] != -1:
             mm_ = _named(c, r, m)
